@@ -136,3 +136,35 @@ def load_rebuilds_indexes_and_pending_set(w: World, sid: int):
             check(in_changeset(st2, got) == pending, "pending exactly when a side with an id carries a change flag")
         else:
             check(st2.lookup_oid(s, None) is None, "a side without an id is not indexed")
+
+
+@lemma(props=["C06"], configs="none", raises=["AssertionError", "Exception"],
+       inline=["cloudsync.sync.state:SyncState.storage_update_data", "cloudsync.sync.state:SyncState.storage_get_data"])
+def stored_data_is_written_under_its_tag(w: World, tag: opt_str, sid: int, has_row: bool, old: str, new: str):
+    """L6.9: persisting a named datum (the event cursor, the walk record): nothing without a tag; otherwise the value is
+    written under that tag -- over the existing row when storage has one for the tag (found through the id cache or by
+    reading the tag), as a new row otherwise or when the back end reports that no row was updated -- never under another
+    tag, and nothing is deleted; afterwards the id cache names the row that holds the value"""
+    state = w.state
+    if has_row:
+        store = w.storage({sid: old})
+    else:
+        store = w.storage({})
+    state._storage = store
+    state.data_id = {}
+    state.storage_update_data(tag, new)
+    names = [n for n in effect_names() if n in ("storage:update", "storage:create", "storage:delete")]
+    if tag is None:
+        check(len(names) == 0, "no tag: nothing is written")
+    else:
+        check("storage:delete" not in names, "nothing is deleted")
+        check(len(names) >= 1, "the value is written")
+        for c in calls("storage:update"):
+            check(has_row and c.args[0] == tag and c.args[1] == new and c.args[2] == sid, "an update goes to the tag's own row with the new value")
+        for c in calls("storage:create"):
+            check(c.args[0] == tag and c.args[1] == new, "a create stores the new value under the tag")
+            check(state.data_id[tag] == c.result, "and the id cache names the new row")
+        if has_row and len(calls("storage:create")) == 0:
+            check(state.data_id[tag] == sid, "the id cache names the row that was updated")
+        if not has_row:
+            check(names == ["storage:create"], "no row yet: exactly one create")
